@@ -1399,6 +1399,34 @@ fn source_sets(r: &mut Rng, n: usize) -> Vec<Vec<String>> {
             out.push(vec![w("[1,\"x\"]"), w(&format!("[{x}]")), w("[null]")]);
         }
     }
+    // WIDTH and DEPTH for the generator: an object of 40 members of mixed kinds, 30 levels of objects / arrays,
+    // 24 distinct sub-structs of growing arity, tuples of 11 and 12 slots, a OneOf of seven variants
+    {
+        let kinds = ["1", "\"s\"", "true", "[1,2]", "{\"in\":1}", "[1,\"x\"]", "null"];
+        let wide: Vec<String> = (0..40).map(|i| format!("\"m{i:02}\":{}", kinds[i % kinds.len()])).collect();
+        out.push(vec![format!("{{{}}}", wide.join(","))]);
+        out.push(vec![format!("{{{}}}", wide.join(",")), format!("{{{}}}", wide[..39].join(","))]);
+        let mut deep_o = String::from("1");
+        let mut deep_a = String::from("{\"leaf\":true}");
+        for _ in 0..30 {
+            deep_o = format!("{{\"a\":{deep_o}}}");
+            deep_a = format!("[{deep_a}]");
+        }
+        out.push(vec![deep_o]);
+        out.push(vec![deep_a]);
+        let subs: Vec<String> = (0..24)
+            .map(|i| {
+                let fs: Vec<String> = (0..=i).map(|j| format!("\"f{j:02}\":{}", kinds[(i + j) % 3])).collect();
+                format!("\"s{i:02}\":{{{}}}", fs.join(","))
+            })
+            .collect();
+        out.push(vec![format!("{{{}}}", subs.join(","))]);
+        for n in [11usize, 12] {
+            let slots: Vec<&str> = (0..n).map(|i| ["1", "\"a\"", "true"][i % 3]).collect();
+            out.push(vec![format!("{{\"t\":[{}]}}", slots.join(","))]);
+        }
+        out.push(vec!["{\"v\":1}", "{\"v\":\"s\"}", "{\"v\":true}", "{\"v\":[1]}", "{\"v\":{\"a\":1}}", "{\"v\":[1,\"x\"]}", "{\"v\":null}"].iter().map(|x| x.to_string()).collect());
+    }
     // member names of every awkward category: non-ASCII letters (legal identifiers), keywords and reserved
     // words, leading digits, underscores only, names that differ only in case or separators, very long
     // names, names equal to the types and crates the generated code itself mentions
